@@ -351,8 +351,8 @@ Lemma call_submit_keff c mk s a ci s2 :
   QWF s -> inst_call c mk (ref_clone s a) = (ci, s2) ->
   (forall b, match mk b with KMeth _ _ _ | KPrep _ _ _ => True | _ => False end) -> keff s (submit s2 QMain ci).
 Proof.
-  intros HW I MK. destruct (inst_call_wf _ _ _ _ _ (Q_ref_clone _ a HW) I) as (H2 & _ & C2 & K2 & Q2).
-  apply ke_submit_call; [eapply inst_call_keff1; [apply ke_ref_clone, ke_refl | eauto] | | apply cwf_iff in C2; apply C2 | exact Q2].
+  intros HW I MK. destruct (inst_call_wf0 _ _ _ _ _ (Q_ref_clone _ a HW) I) as (H2 & _ & C2 & K2 & Q2).
+  apply ke_submit_call; [eapply inst_call_keff1; [apply ke_ref_clone, ke_refl | eauto] | | exact C2 | exact Q2].
   unfold callk. rewrite K2. apply MK.
 Qed.
 
@@ -438,8 +438,8 @@ Proof.
     destruct (aget (fwds s) f) as [[rc [body|ht c] tg]|]; try kout_tac.
     destruct tg as [a|]; [|kout_tac].
     destruct (inst_nocaps c _ (ref_clone s a)) as [ci s2] eqn:I. intros E; inversion E; subst. split; [|constructor].
-    destruct (inst_nocaps_wf _ _ _ _ _ (Q_ref_clone _ a HW) I) as (H2 & _ & C2 & K2).
-    apply ke_submit_call; [apply target_ev_keff; eapply inst_nocaps_keff; [apply ke_ref_clone, ke_refl | eauto] | callk_tac | apply cwf_iff in C2; apply C2 |].
+    destruct (inst_nocaps_wf0 _ _ _ _ _ (Q_ref_clone _ a HW) I) as (H2 & _ & C2 & K2).
+    apply ke_submit_call; [apply target_ev_keff; eapply inst_nocaps_keff; [apply ke_ref_clone, ke_refl | eauto] | callk_tac | exact C2 |].
     unfold inst_nocaps in I. inversion I; reflexivity.
 Qed.
 
